@@ -16,7 +16,7 @@ enum { M_SAFE = 0, M_PARTIAL, M_USINGDICT, M_PARTIAL_USINGDICT, M_CONTINUE_PREFI
 static const char* const m_names[M_NB] = {"safe","partial","usingDict","partial_usingDict","continue_prefix","continue_ext","fast","fast_usingDict","inplace"};
 enum { PL_CONTIG = 0, PL_EXT = 1 };
 
-static u64 n_calls, n_ok, n_err, mode_hist[M_NB], dict_hist[4], src_hist[4];
+static u64 n_reused_sd; static u64 n_calls, n_ok, n_err, mode_hist[M_NB], dict_hist[4], src_hist[4];
 
 /* ---------- G1: blocks from specification-level sequences ---------- */
 typedef struct { u8* blk; size_t blkSize; u8* content; size_t contentSize; int valid; } genblk_t;
@@ -103,7 +103,15 @@ static void do_decode(int mode, const u8* blk, size_t srcSize, const u8* dict, s
         case M_PARTIAL: ret = LZ4_decompress_safe_partial((const char*)src, (char*)dst, (int)srcSize, target, cap); break;
         case M_USINGDICT: ret = LZ4_decompress_safe_usingDict((const char*)src, (char*)dst, (int)srcSize, cap, d, (int)dictSize); break;
         case M_PARTIAL_USINGDICT: ret = LZ4_decompress_safe_partial_usingDict((const char*)src, (char*)dst, (int)srcSize, target, cap, d, (int)dictSize); break;
-        case M_CONTINUE_PREFIX: case M_CONTINUE_EXT: { LZ4_streamDecode_t sd; LZ4_setStreamDecode(&sd, d, (int)dictSize); ret = LZ4_decompress_safe_continue(&sd, (const char*)src, (char*)dst, (int)srcSize, cap); break; }
+        case M_CONTINUE_PREFIX: case M_CONTINUE_EXT: {
+            /* half of the time the LZ4_streamDecode_t is a REUSED one: an earlier session decoded two blocks into two separate buffers (so it knows an
+             * external dictionary), those buffers are gone (freed: touching them is a fault), and LZ4_setStreamDecode starts the new session */
+            static LZ4_streamDecode_t reused; LZ4_streamDecode_t fresh; LZ4_streamDecode_t* sd = &fresh;
+            if (rndp(50)) { static const char lit5[6] = {0x50, 'h', 'e', 'l', 'l', 'o'}; char* b1 = (char*)malloc(5); char* b2 = (char*)malloc(64); char* cs = (char*)malloc(6); int r1, r2;
+                memcpy(cs, lit5, 6); LZ4_setStreamDecode(&reused, NULL, 0);
+                r1 = LZ4_decompress_safe_continue(&reused, cs, b1, 6, 5); r2 = LZ4_decompress_safe_continue(&reused, cs, b2 + 32, 6, 5); (void)r1; (void)r2;
+                free(b1); free(b2); free(cs); sd = &reused; n_reused_sd++; }
+            LZ4_setStreamDecode(sd, d, (int)dictSize); ret = LZ4_decompress_safe_continue(sd, (const char*)src, (char*)dst, (int)srcSize, cap); break; }
         case M_FAST: ret = LZ4_decompress_fast((const char*)src, (char*)dst, (int)expectSize); break;            /* valid input only */
         case M_FAST_USINGDICT: ret = LZ4_decompress_fast_usingDict((const char*)src, (char*)dst, (int)expectSize, d, (int)dictSize); break;
         }
@@ -259,7 +267,7 @@ int main(int argc, char** argv)
     } else { fprintf(stderr, "unknown mode %s\n", mode); return 2; }
 
     harness_done();
-    stat_u("calls", n_calls); stat_u("chain_blocks", n_chain_blocks); stat_u("chain_empty_blocks", n_chain_empty); stat_u("chains_switching_on_empty_block", n_chain_switch_on_empty); stat_u("decoder_ok", n_ok); stat_u("decoder_error", n_err); stat_u("records", g_nrecords); stat_u("fast_dec_loop", LZ4_FAST_DEC_LOOP);
+    stat_u("calls", n_calls); stat_u("reused_streamDecode_sessions", n_reused_sd); stat_u("chain_blocks", n_chain_blocks); stat_u("chain_empty_blocks", n_chain_empty); stat_u("chains_switching_on_empty_block", n_chain_switch_on_empty); stat_u("decoder_ok", n_ok); stat_u("decoder_error", n_err); stat_u("records", g_nrecords); stat_u("fast_dec_loop", LZ4_FAST_DEC_LOOP);
     for (i = 0; i < M_NB; i++) if (mode_hist[i]) { char k[64]; snprintf(k, sizeof k, "mode.%s", m_names[i]); stat_u(k, mode_hist[i]); }
     for (i = 0; i < 4; i++) if (dict_hist[i]) { char k[64]; snprintf(k, sizeof k, "dictclass.%d", i); stat_u(k, dict_hist[i]); }
     stat_u("cfails", (u64)g_cfails);
